@@ -135,6 +135,13 @@ def main(src):
                     v["value"] = raw
                 elif isinstance(raw, (list, tuple)) and all(isinstance(x, (str, int, type(None))) for x in raw):
                     v["value"] = list(raw)
+                elif isinstance(raw, dict) and all(isinstance(x, str) for x in raw):
+                    v["keys"] = list(raw)
+                    if raw and all(isinstance(x, dict) and all(isinstance(y, str) for y in x) and
+                                   all(isinstance(y, (int, str, type(None))) for y in x.values()) for x in raw.values()):
+                        v["entries"] = {a: dict(b) for a, b in raw.items()}
+                    elif raw and all(isinstance(x, (str, int, type(None))) for x in raw.values()):
+                        v["entries"] = dict(raw)
                 own[name] = v
         srcfile = getattr(sys.modules.get(cls.__module__), "__file__", None)
         generated = any(v.get("file") == "<string>" for v in own.values())
